@@ -262,3 +262,86 @@ def run_output(source):
     except BaseException as e:
         end = type(e).__name__
     return [buf.getvalue(), end]
+
+
+# ---------------------------------------------------------------------------- signatures (stream kwgoto)
+
+KIND_NO = {'posonly': 0, 'pk': 1, 'varpos': 2, 'kwonly': 3, 'varkw': 4}      # inspect.Parameter numbers
+SIG_NAMES = ['alpha', 'beta', 'gamma', 'delta']
+
+
+def enumerate_signatures(max_params=3):
+    """every well-formed order of at most `max_params` parameter kinds:
+    posonly* pk* [varpos] kwonly* [varkw]"""
+    out = []
+
+    def rec(prefix, stage):
+        if prefix:
+            out.append(list(prefix))
+        if len(prefix) == max_params:
+            return
+        stages = ['posonly', 'pk', 'varpos', 'kwonly', 'varkw']
+        for i in range(stage, len(stages)):
+            k = stages[i]
+            nxt = i if k in ('posonly', 'pk', 'kwonly') else i + 1
+            rec(prefix + [k], nxt)
+    rec([], 0)
+    return out
+
+
+def signature_text(kinds, names):
+    """parameter list text of a def with the given kinds (a bare `*` in front of keyword-only
+    parameters when there is no *args, `/` behind the positional-only ones)"""
+    parts = []
+    seen_star = False
+    for i, (k, n) in enumerate(zip(kinds, names)):
+        if k == 'posonly':
+            parts.append(n)
+            if i + 1 == len(kinds) or kinds[i + 1] != 'posonly':
+                parts.append('/')
+        elif k == 'pk':
+            parts.append(n)
+        elif k == 'varpos':
+            parts.append('*' + n)
+            seen_star = True
+        elif k == 'kwonly':
+            if not seen_star:
+                parts.append('*')
+                seen_star = True
+            parts.append(n + '=0')
+        else:
+            parts.append('**' + n)
+    return ', '.join(parts)
+
+
+def goto_cases():
+    """[{'source', 'line', 'col' (of the call keyword), 'sig': [[name index, kind number]], 'k': name
+    index, 'params': [[line, col] of every parameter], 'form'}]: the call is only parsed, never run"""
+    cases = []
+    for kinds in enumerate_signatures(3):
+        names = SIG_NAMES[:len(kinds)]
+        sig = signature_text(kinds, names)
+        for ki, kname in enumerate(names + ['omega']):
+            for form in ('function', 'method', 'init'):
+                if form == 'function':
+                    lines = ['def target(%s):' % sig, '    return 0', '', '', 'target(%s=1)' % kname]
+                    def_line, pad = 1, len('def target(')
+                elif form == 'method':
+                    lines = ['class Holder:', '    def target(self, %s):' % sig, '        return 0', '', '',
+                             'Holder().target(%s=1)' % kname]
+                    def_line, pad = 2, len('    def target(self, ')
+                else:
+                    lines = ['class Holder:', '    def __init__(self, %s):' % sig, '        self.done = 0', '', '',
+                             'Holder(%s=1)' % kname]
+                    def_line, pad = 2, len('    def __init__(self, ')
+                src = '\n'.join(lines) + '\n'
+                params = []
+                for n in names:
+                    import re
+                    m = re.search(r'(?<![\w])%s(?![\w])' % n, lines[def_line - 1][pad:])
+                    params.append([def_line, pad + m.start()])
+                call_line = len(lines)
+                cases.append({'source': src, 'line': call_line, 'col': lines[-1].index(kname + '=1'),
+                              'sig': [[i + 1, KIND_NO[k]] for i, k in enumerate(kinds)], 'k': ki + 1,
+                              'params': params, 'form': form, 'kinds': kinds})
+    return cases
